@@ -22,7 +22,9 @@ CHECKS = {
  "C07": ("model_checking",
          "TLC enumerates all header pairs over field ranges 0..5 x 2 generators (186k pairs), checks operational contradiction = declarative definition, symmetry, "
          "never across generators; prints truth tables for contradiction, the fork-choice predicate cascade (2592 rows) and header priority; the harness evaluates the real "
-         "functions on every row and on uint32-range pairs via rank compression. The chain-level rule is validated by IsHeaderContradictingChain probes in the LiskBFT trace.",
+         "functions on every row and on uint32-range pairs via rank compression. The chain-level rule is validated by IsHeaderContradictingChain probes in the LiskBFT trace. "
+         "The algebraic facts (operational = declarative, symmetry, Better is a strict total preorder, a legitimate successor is Better, an honest generator never contradicts itself) are additionally discharged by Apalache for all natural field values "
+         "(spec/apalache/ContraInt.tla), with a weakened-comparison control that must be refuted.",
          "Comparison-only structure of the contradiction spec justifies rank compression; receive times are placed mid-slot with 1000 s slots.",
          "TLC-enumerated truth tables of a TLA+ transcription of LIP-0014 compared with the real functions", "DESIGN.md section 4 C07"),
  "C12": ("model_checking",
